@@ -77,7 +77,7 @@ def sketch(draw, loop_button=False):
         use_helper = not loop_button
     body = list(decl_loop)
     for _ in range(draw(st.integers(1, 7))):
-        k = draw(st.sampled_from(["btn", "btn", "btn_if", "pot", "us", "us2", "sleep", "helper"]))
+        k = draw(st.sampled_from(["btn", "btn", "btn_if", "pot", "pot_pair", "us", "us2", "sleep", "helper"]))
         if k == "btn":
             i = draw(st.integers(0, nb - 1))
             body.append(f"mon.write('b{i}:' + str(btn{i}.is_pressed()))")
@@ -89,6 +89,15 @@ def sketch(draw, loop_button=False):
         elif k == "pot" and npot:
             i = draw(st.integers(0, npot - 1))
             body.append(f"mon.write('p{i}:' + str(pot{i}.read()))")
+        elif k == "pot_pair" and npot:
+            # the same read expression twice in one statement (tuple assignment, list literal, sum): two calls are two samples
+            i = draw(st.integers(0, npot - 1))
+            j = draw(st.integers(0, npot - 1))
+            form = draw(st.sampled_from(["tuple", "tuple", "two_stmts"]))   # (a list literal of two reads is the open finding KF-C01-list-literal-element-order)
+            if form == "tuple":
+                body += [f"ra, rb = pot{i}.read(), pot{j}.read()", f"mon.write('p{i}:' + str(ra))", f"mon.write('p{j}:' + str(rb))"]
+            else:
+                body += [f"ra = pot{i}.read()", f"rb = pot{j}.read()", f"mon.write('p{i}:' + str(ra))", f"mon.write('p{j}:' + str(rb))"]
         elif k in ("us", "us2") and nus:
             i = draw(st.integers(0, nus - 1))
             body.append(f"mon.write('u{i}:' + str(us{i}.measure_distance()))")
@@ -224,19 +233,21 @@ def model_check(sk, tp, n, trace):
     for i in range(sk["npot"]):
         pin = (sk.get("ppins") or [p for _, p in POT_PINS])[i]
         for kpass, ev in enumerate(loops):
-            pending = None
+            pending = []   # samples taken and not yet printed, oldest first (a statement may take two before it prints them)
             for _, k, a in ev:
                 if k == "AR" and int(a.split()[0]) == pin:
-                    if pending is not None:
+                    pending.append(int(a.split()[1]))
+                    if len(pending) > 2:
                         fails.append(("pot-read-not-printed", "each read value is used by the statement that made it", f"pass {kpass}"))
-                    pending = int(a.split()[1])
                 elif k == "SER" and a.startswith(f"p{i}:"):
                     got = a.split(":")[1]
-                    if pending is None:
+                    if not pending:
                         fails.append(("pot-read-without-analogRead", f"pass {kpass}: a fresh analogRead({pin}) for every read()", f"printed {got} without a read"))
-                    elif str(pending) != got:
-                        fails.append(("pot-value", pending, got))
-                    pending = None
+                    elif str(pending[0]) != got:
+                        fails.append(("pot-value", pending[0], got))
+                    pending = pending[1:]
+            if pending:
+                fails.append(("pot-read-not-printed", "each read value is used by the statement that made it", f"pass {kpass}: {len(pending)} sample(s) left"))
     # ---------------- ultrasonic
     for i in range(sk["nus"]):
         trig, echo = US_PINS[i]
